@@ -91,6 +91,49 @@ def run_publish(work, image_id, listing, fault):
         return e
 
 
+def run_refresh(work, image_id):
+    """the real `toasty pipeline refresh` with an image source that offers `image_id`; returns whether the candidate was saved"""
+    import argparse
+    import contextlib
+    import io
+    from toasty import pipeline as PL
+    from toasty.pipeline import cli as PCLI
+
+    class Cand(PL.CandidateInput):
+        def get_unique_id(self):
+            return image_id
+
+        def save(self, stream):
+            stream.write(b"candidate")
+
+    class RefSource(PL.ImageSource):
+        @classmethod
+        def get_config_key(cls):
+            return "refstub"
+
+        @classmethod
+        def deserialize(cls, data):
+            return cls()
+
+        def query_candidates(self):
+            return iter([Cand()])
+
+        def fetch_candidate(self, unique_id, cand_data_stream, cachedir):
+            pass
+
+        def process(self, unique_id, cand_data_stream, cachedir, builder):
+            pass
+    PL.IMAGE_SOURCE_CLASS_LOADERS["refstub"] = lambda: RefSource
+    with open(os.path.join(work, "toasty-pipeline-config.yaml"), "wt") as f:
+        f.write("source_type: refstub\nrefstub: {}\n")
+    cand_path = os.path.join(work, "candidates", image_id)
+    if os.path.exists(cand_path):
+        os.unlink(cand_path)
+    with contextlib.redirect_stdout(io.StringIO()), contextlib.redirect_stderr(io.StringIO()):
+        PCLI.refresh_impl(argparse.Namespace(workdir=work))
+    return os.path.exists(cand_path)
+
+
 def observe(work, store, image_id, contents, files):
     out = []
     for f in files:
@@ -182,6 +225,19 @@ def main():
                     break
                 if moved and not all(c == "C" for c in o[:-1]):
                     h.violation("moved-incomplete", f"image moved to published/ with store {dict(zip(files, o[:-1]))} after {descr}", input={"files": files, "history": descr})
+            # `toasty pipeline refresh` between the runs: an image whose index.wtml is not in the store is NOT "already done" — the
+            # image source's candidate must be saved again, whatever else of it the store already holds
+            if not moved and hi % 5 == 0:
+                try:
+                    saved = run_refresh(work, image_id)
+                    in_store = os.path.exists(os.path.join(store, image_id, "index.wtml"))
+                    h.count("refresh", "index-in-store" if in_store else "index-not-in-store")
+                    if saved == in_store:
+                        h.violation("refresh:skipped" if not saved else "refresh:redone",
+                                    f"after {descr} (store {dict(zip(files, o[:-1]))}) `toasty pipeline refresh` {'skips the image as already done' if not saved else 'offers the published image again'}",
+                                    input={"files": files, "history": descr}, observed={"candidate_saved": saved, "index_in_store": in_store})
+                except Exception as e:
+                    h.violation("refresh:crash", f"`toasty pipeline refresh` after {descr} raised {type(e).__name__}: {e}", input={"files": files, "history": descr})
             # a fault-free re-run must complete the job
             if not moved:
                 listing = files[:]
